@@ -30,6 +30,13 @@ MUTS = {
     "toml-first-match-wins": ("src/reuse/global_licensing.py", "        for item in reversed(self.annotations):\n            if item.matches(path):", "        for item in self.annotations:\n            if item.matches(path):"),
     "empty-reuse-toml-loaded": ("src/reuse/covered_files.py", "            if path.stat().st_size == 0:", "            if path.stat().st_size == 0 and name != \"REUSE.toml\":"),
     "window-ignores-snippet": ("src/reuse/extract.py", "            if _contains_snippet(fp):", "            if False and _contains_snippet(fp):"),
+    # symbolic links below LICENSES/
+    "licenses-dangling-links-kept": ("src/reuse/project.py", "            if not Path(path).exists() or Path(path).is_dir():", "            if not os.path.lexists(path) or Path(path).is_dir():"),
+    "licenses-inside-project-only": ("src/reuse/project.py", "            if not Path(path).exists() or Path(path).is_dir():\n                continue\n",
+                                     "            if not Path(path).exists() or Path(path).is_dir():\n                continue\n"
+                                     "            if not Path(os.path.realpath(path)).is_relative_to(os.path.realpath(self.root)):\n                continue\n"),
+    "licenses-named-by-target": ("src/reuse/project.py", "            path = Path(path_str)\n            # For some reason", "            path = Path(os.path.realpath(path_str))\n            # For some reason"),
+    "licenses-links-not-texts": ("src/reuse/project.py", "            if not Path(path).exists() or Path(path).is_dir():", "            if not Path(path).exists() or Path(path).is_dir() or Path(path).is_symlink():"),
     "unreadable-swallowed": ("src/reuse/project.py", "        elif is_binary(str(path)):", "        elif Path(path).is_dir() or is_binary(str(path)):"),
 }
 which = sys.argv[1:] or list(MUTS)
